@@ -19,6 +19,8 @@ def plan(tier):
                     I.append(inst(f"segment-circle[{model},degrees={degrees},string={as_string}]", 'harness.c14', 'segment_circle',
                                   dict(model=model, degrees=degrees, as_string=as_string), weight=100 if model == 'halfspace' else 800, timeout_s=900 if q else 3000))
                 k += 1
+    for n in ([2, 3] if q else [2, 3, 4]):
+        I.append(inst(f"segment-ideal-endpoints[n={n}]", 'harness.c14', 'segment_ideal', dict(n=n), weight=20 * n, timeout_s=900))
     for model in ('poincare', 'halfspace'):
         for n in ([2] if q else [2, 3]):
             I.append(inst(f"horosphere[{model},n={n}]", 'harness.c14', 'horosphere', dict(model=model, n=n), weight=10 * n, timeout_s=1200))
